@@ -72,7 +72,16 @@ pub fn check_trait<S: Attack>(c: &Case, ctx: &mut CaseCtx) -> Result<(), Failure
             l.subset = 1; // one polynomial per point label where the model allows it
         }
     }
-    let Ok(sess) = Session::<S>::build(&scn_forge, tier) else {
+    // one forgery case in four runs under the scheme's large keys (a key defect that appears only above a
+    // size threshold - say, generators that repeat after 256 - is invisible at the ordinary sizes)
+    let large = c.mode == 5 && S::HAS_FORGE && (c.sel >> 52) % 4 == 0;
+    let built = if large {
+        ctx.label("large_key");
+        S::keys_large(&scn_forge.key, tier, c.sel >> 54).and_then(|k| Session::<S>::build_with_keys(&scn_forge, k))
+    } else {
+        Session::<S>::build(&scn_forge, tier)
+    };
+    let Ok(sess) = built else {
         ctx.label("build_failed(C01)");
         return Ok(());
     };
